@@ -3,6 +3,7 @@ mod dim;
 mod html;
 mod list;
 mod prefix;
+mod qty;
 mod session;
 mod util;
 mod vm;
@@ -22,6 +23,7 @@ fn main() {
         "html" => html::main(),
         "list" => list::main(),
         "prefix" => prefix::main(),
+        "qty" => qty::main(),
         "session" => session::main(),
         "vm" => vm::main(),
         other => {
